@@ -1,23 +1,51 @@
-(* C13 — the result depends only on the selected track's live data.  Property theorems only (partial: invariance is proved for the
-   per-record lookups of the reader transcription; invariance of the whole reader on an edited export is evaluated inside Coq for
-   every generated twin pair, and the real binary is run on both). *)
+(* C13 — the result depends only on the selected track's live data.  Property theorems only.
+   About the declarative reader specification CdeSpec.spec_read (tied to cdedb::read by exact correspondence on every generated
+   export; additionally every generated twin pair -- export and irrelevantly edited export -- is evaluated in Coq and run through
+   the real binary).  The problem determines verdict and score for every schedule (C03) and, with one worker, the assignment; the
+   writer is a function of problem and assignment (C05). *)
 From Coq Require Import List ZArith Bool Arith String.
-Require Import Json CdeThms.
+Require Import Json CdeThms CdeSpec CdeInvariance.
 Import ListNotations.
 
-(* a registration's choices / assignment / instructed course as read depend only on its entry for the selected track *)
-Theorem C13_registration_partial : forall reg reg' tid cmap,
+(* course_data tid c / reg_data part tid r: exactly what the selected track's view of a course / registration reads: nr, shortname,
+   sizes, fields and the segment entry of track tid; the status entry of the track's part, the two persona names and the tracks entry
+   of track tid.  Two exports that have the same event structure, the same course and registration ids and agree on these data for
+   every course and registration -- whatever else differs: other tracks' choices, assignments, instructors and segments, other parts'
+   statuses, lodgement and remaining persona data -- give the same problem (or the same refusal). *)
+Theorem C13 : forall data data' track ign_c ign_a ff of,
+  get "kind" data = get "kind" data' -> get "EVENT_SCHEMA_VERSION" data = get "EVENT_SCHEMA_VERSION" data' ->
+  get "CDEDB_EXPORT_EVENT_VERSION" data = get "CDEDB_EXPORT_EVENT_VERSION" data' ->
+  get "timestamp" data = get "timestamp" data' -> get "event" data = get "event" data' -> get "id" data = get "id" data' ->
+  (forall part_id track_id,
+     match items_of "courses" data, items_of "courses" data' with
+     | Some l, Some l' => Forall2 (fun x y : string * json => fst x = fst y /\ course_data track_id (snd x) = course_data track_id (snd y)) l l'
+     | None, None => True | _, _ => False end /\
+     match items_of "registrations" data, items_of "registrations" data' with
+     | Some l, Some l' => Forall2 (fun x y : string * json => fst x = fst y /\ reg_data part_id track_id (snd x) = reg_data part_id track_id (snd y)) l l'
+     | None, None => True | _, _ => False end) ->
+  spec_read data track ign_c ign_a ff of = spec_read data' track ign_c ign_a ff of.
+Proof. exact spec_read_depends. Qed.
+
+(* without --ignore-assigned the existing assignments (course_id of the selected track) do not enter the problem *)
+Theorem C13_assigned_irrelevant : forall csorted rviews,
+  spec_participants false (map forget_assigned rviews) = spec_participants false rviews /\
+  spec_courses false csorted (map forget_assigned rviews) = spec_courses false csorted rviews.
+Proof. exact assigned_irrelevant. Qed.
+(* without --ignore-cancelled it does not matter whether a course of the selected track is currently cancelled or active: the same
+   courses in the same order, the same id -> index map *)
+Theorem C13_cancelled_irrelevant : forall cviews,
+  map cv_id (spec_csorted false (map forget_cancel cviews)) = map cv_id (spec_csorted false cviews) /\
+  spec_cmap false (map forget_cancel cviews) = spec_cmap false cviews.
+Proof. exact cancelled_irrelevant. Qed.
+(* the per-record lookups of the transcription have the same locality *)
+Theorem C13_registration_lookup : forall reg reg' tid cmap,
   (match get "tracks" reg with Some v => match as_object v with Some o => assoc (zstr tid) o | None => None end | None => None end) =
   (match get "tracks" reg' with Some v => match as_object v with Some o => assoc (zstr tid) o | None => None end | None => None end) ->
   parse_pcd reg tid cmap = parse_pcd reg' tid cmap.
 Proof. exact parse_pcd_other_tracks. Qed.
-(* a course as read depends only on its base data and its segment for the selected track *)
-Theorem C13_course_partial : forall cid c c' tid,
-  get "nr" c = get "nr" c' -> get "shortname" c = get "shortname" c' -> get "max_size" c = get "max_size" c' -> get "min_size" c = get "min_size" c' ->
-  (exists segs segs', get "segments" c = Some (JObj segs) /\ get "segments" c' = Some (JObj segs') /\ assoc (zstr tid) segs = assoc (zstr tid) segs') ->
-  parse_course cid c tid = parse_course cid c' tid.
-Proof. exact parse_course_other_segments. Qed.
 
-Check C13_registration_partial. Check C13_course_partial.
-Print Assumptions C13_registration_partial.
-Print Assumptions C13_course_partial.
+Check C13. Check C13_assigned_irrelevant. Check C13_cancelled_irrelevant. Check C13_registration_lookup.
+Print Assumptions C13.
+Print Assumptions C13_assigned_irrelevant.
+Print Assumptions C13_cancelled_irrelevant.
+Print Assumptions C13_registration_lookup.
